@@ -14,11 +14,11 @@ existing objects, encrypt / decrypt run on a session that is open (neither it no
 been closed: `sessionOpen`), and nothing is closed twice.  Without that restriction the statements
 are false for the model *and* for the SDK: `use_after_close_counterexample` below.
 
-**Caches.** `…_partial` theorems are proved for factories whose key caches are the SDK defaults
-(`never` when caching is off, `simple` otherwise): `NoBounded`, i.e. `skKind = none ∧ ikKind = none`
-in every policy of the history.  The `…_full` statements drop that restriction; what is missing for
-them is the treatment of the bounded caches' evictions (`cacheSet`, `cacheClose` in `.bounded`
-mode on top of the E2 cache theorems of Props/C15).
+**Caches.** Every cache policy: `never` (caching off), `simple` (the default), and the bounded
+LRU / LFU / SLRU / TinyLFU caches, whose eviction decisions are delegated to the E2 cache model
+(`AsherahVerif.Cache`, the subject of C15) exactly as `key_cache.go` delegates to `pkg/cache`.
+The one hypothesis on configurations is `CapsPos`: a bounded cache has capacity ≥ 1 — with
+capacity 0 the first `Set` panics in Go (C15 `cap0_panics`), which is outside this property.
 -/
 namespace AsherahVerif.Props.C09
 open AsherahVerif.Env
@@ -41,61 +41,44 @@ def ResInv (w : World) : Prop := QInv w
 theorem resInv_init (t : Int) : ResInv (World.init t) := QInv.init t
 
 /-- every legitimate public operation preserves the invariant — whatever it returns, whatever the
-faults (`NoBoundedOp`: a new factory uses the default key caches). -/
-theorem resInv_applyOp (w : World) (op : Op) (h : ResInv w) (hok : opOk w op) (hnb : NoBoundedOp op) :
+faults (`CapsPosOp`: bounded key caches of a new factory have capacity ≥ 1). -/
+theorem resInv_applyOp (w : World) (op : Op) (h : ResInv w) (hok : opOk w op) (hnb : CapsPosOp op) :
     ResInv (applyOp w op).2 := QInv.applyOp h op hok hnb
 
-theorem resInv_reachable (t : Int) (ops : List Op) (hv : validFrom (World.init t) ops) (hnb : NoBounded ops) :
+theorem resInv_reachable (t : Int) (ops : List Op) (hv : validFrom (World.init t) ops) (hnb : CapsPos ops) :
     ResInv (runOps (World.init t) ops).2 := (QInv.init t).runOps ops hv hnb
 
 /-! ### the property theorems -/
 
-def no_access_after_close_full : Prop :=
-  ∀ (t : Int) (ops : List Op), validFrom (World.init t) ops → accessesAfterClose (runOps (World.init t) ops).2 = 0
-
-/-- **no_access_after_close** (default caches): in every well-formed history no secret is ever
-accessed after it has been closed.  Missing for `no_access_after_close_full`: bounded caches. -/
-theorem no_access_after_close_partial (t : Int) :
-    ∀ ops, validFrom (World.init t) ops → NoBounded ops → accessesAfterClose (runOps (World.init t) ops).2 = 0 :=
+/-- **no_access_after_close**: in every well-formed history no secret is ever accessed after it has
+been closed. -/
+theorem no_access_after_close (t : Int) :
+    ∀ ops, validFrom (World.init t) ops → CapsPos ops → accessesAfterClose (runOps (World.init t) ops).2 = 0 :=
   fun ops hv hnb => (resInv_reachable t ops hv hnb).2.aac_zero
 
-def no_double_close_full : Prop :=
-  ∀ (t : Int) (ops : List Op), validFrom (World.init t) ops → multiClosed (runOps (World.init t) ops).2 = 0
-
-/-- **no_double_close** (default caches): no secret is ever closed twice; more precisely every
+/-- **no_double_close**: no secret is ever closed twice; more precisely every
 ledger entry has `closes ≤ 1`. -/
-theorem no_double_close_partial (t : Int) (ops : List Op) (hv : validFrom (World.init t) ops) (hnb : NoBounded ops) :
+theorem no_double_close (t : Int) (ops : List Op) (hv : validFrom (World.init t) ops) (hnb : CapsPos ops) :
     multiClosed (runOps (World.init t) ops).2 = 0 ∧
     ∀ s, s ∈ (runOps (World.init t) ops).2.secrets → s.closes ≤ 1 :=
   have h := (resInv_reachable t ops hv hnb).2.multi_zero
   ⟨h, (multiClosed_eq_zero_iff _).1 h⟩
 
-def closed_all_released_once_full : Prop :=
-  ∀ (t : Int) (ops : List Op), validFrom (World.init t) ops → allClosed (runOps (World.init t) ops).2 →
-    liveSecrets (runOps (World.init t) ops).2 = 0 ∧ multiClosed (runOps (World.init t) ops).2 = 0 ∧
-    accessesAfterClose (runOps (World.init t) ops).2 = 0
-
-/-- **closed_all_released_once** (default caches): once every session and every factory has been
+/-- **closed_all_released_once**: once every session and every factory has been
 closed, every secret the SDK ever allocated has been released — exactly once, and none was touched
 afterwards.  (Every ledger entry then has `closes = 1`, `aac = 0`.) -/
-theorem closed_all_released_once_partial (t : Int) (ops : List Op) (hv : validFrom (World.init t) ops)
-    (hnb : NoBounded ops) (hc : allClosed (runOps (World.init t) ops).2) :
+theorem closed_all_released_once (t : Int) (ops : List Op) (hv : validFrom (World.init t) ops)
+    (hnb : CapsPos ops) (hc : allClosed (runOps (World.init t) ops).2) :
     liveSecrets (runOps (World.init t) ops).2 = 0 ∧ multiClosed (runOps (World.init t) ops).2 = 0 ∧
     accessesAfterClose (runOps (World.init t) ops).2 = 0 :=
   have h := resInv_reachable t ops hv hnb
   ⟨h.live_zero_of_allClosed hc, h.2.multi_zero, h.2.aac_zero⟩
 
-def closed_all_released_once_closeAll_full : Prop :=
-  ∀ (t : Int) (ops : List Op), validFrom (World.init t) ops →
-    let w := (runOps (World.init t) ops).2
-    let w' := (runOps w (closeAllOps w)).2
-    liveSecrets w' = 0 ∧ multiClosed w' = 0 ∧ accessesAfterClose w' = 0
-
 /-- the same with the closing spelled out: from any reachable world, `Close` every session that is
 still open and then every factory that is still open (`closeAllOps`, always a well-formed
 continuation) — afterwards no secret is live, none was closed twice, none touched after close. -/
-theorem closed_all_released_once_closeAll_partial (t : Int) (ops : List Op) (hv : validFrom (World.init t) ops)
-    (hnb : NoBounded ops) :
+theorem closed_all_released_once_closeAll (t : Int) (ops : List Op) (hv : validFrom (World.init t) ops)
+    (hnb : CapsPos ops) :
     let w := (runOps (World.init t) ops).2
     let w' := (runOps w (closeAllOps w)).2
     liveSecrets w' = 0 ∧ multiClosed w' = 0 ∧ accessesAfterClose w' = 0 := by
@@ -108,15 +91,15 @@ theorem closed_all_released_once_closeAll_partial (t : Int) (ops : List Op) (hv 
 /-- number of entries in the key caches that have not been closed. -/
 def openEntries (w : World) : Nat := (liveObjs (cacheDead w) w.caches).length
 
-def live_bound_full : Prop :=
-  ∀ (t : Int) (ops : List Op), validFrom (World.init t) ops →
-    liveSecrets (runOps (World.init t) ops).2 ≤ openEntries (runOps (World.init t) ops).2
-
-/-- **live_bound** (default caches): at every quiescent point the live secrets are at most the
-entries of the open key caches — every live secret is the key of (at least) one cache entry. -/
-theorem live_bound_partial (t : Int) (ops : List Op) (hv : validFrom (World.init t) ops) (hnb : NoBounded ops) :
-    liveSecrets (runOps (World.init t) ops).2 ≤ openEntries (runOps (World.init t) ops).2 :=
-  (resInv_reachable t ops hv hnb).2.live_le
+/-- **live_bound**: at every quiescent point the live secrets are at most the entries of the open
+key caches — every live secret is the key of (at least) one cache entry — and an open bounded cache
+never holds more entries than its capacity. -/
+theorem live_bound (t : Int) (ops : List Op) (hv : validFrom (World.init t) ops) (hnb : CapsPos ops) :
+    liveSecrets (runOps (World.init t) ops).2 ≤ openEntries (runOps (World.init t) ops).2 ∧
+    ∀ c kc, (runOps (World.init t) ops).2.caches[c]? = some kc → cacheDead (runOps (World.init t) ops).2 c = false →
+      kc.mode = .bounded → kc.ents.length ≤ kc.pol.cap :=
+  have h := resInv_reachable t ops hv hnb
+  ⟨h.2.live_le, fun c kc hc hd hm => ((h.2.ents c kc hc hd).bnd hm).ents_le_cap (h.2.ents c kc hc hd)⟩
 
 /-! ### data row keys, and factories without key caching -/
 
@@ -138,23 +121,16 @@ theorem drk_released (T : CTab) (H : List Nat) (x : Ctx) (p ik : Nat) (hik : ik 
 well-formed history, every secret that is still live — in particular every one the operation
 allocated — is the key of an entry of an open key cache; a data row key never is
 (`drk_released`), so it has been released. -/
-theorem op_live_secrets_are_cached (t : Int) (ops : List Op) (hv : validFrom (World.init t) ops) (hnb : NoBounded ops)
+theorem op_live_secrets_are_cached (t : Int) (ops : List Op) (hv : validFrom (World.init t) ops) (hnb : CapsPos ops)
     (i : Nat) (hlive : i ∈ liveIdx (runOps (World.init t) ops).2) :
     i ∈ liveObjs (cacheDead (runOps (World.init t) ops).2) (runOps (World.init t) ops).2.caches :=
   (resInv_reachable t ops hv hnb).2.live_in_cache hlive
 
-def nocache_all_released_full : Prop :=
-  ∀ (t : Int) (ops : List Op), validFrom (World.init t) ops →
-    let w := (runOps (World.init t) ops).2
-    ∀ s, sessionOpen w s → noCacheSession w s →
-      (∀ pay fl, liveSecrets (applyOp w (.encrypt s pay fl)).2 = liveSecrets w) ∧
-      (∀ d fl, liveSecrets (applyOp w (.decrypt s d fl)).2 = liveSecrets w)
-
 /-- **nocache_all_released**: on a session of a factory with `cacheSK = false ∧ cacheIK = false ∧
 sharedIK = false` (`noCacheSession`), every encrypt and every decrypt — whatever it returns,
 whatever the faults — releases every secret it allocates: the number of live secrets afterwards is
-what it was before.  (`NoBounded` concerns the *other* factories of the history.) -/
-theorem nocache_all_released_partial (t : Int) (ops : List Op) (hv : validFrom (World.init t) ops) (hnb : NoBounded ops) :
+what it was before. -/
+theorem nocache_all_released (t : Int) (ops : List Op) (hv : validFrom (World.init t) ops) (hnb : CapsPos ops) :
     let w := (runOps (World.init t) ops).2
     ∀ s, sessionOpen w s → noCacheSession w s →
       (∀ pay fl, liveSecrets (applyOp w (.encrypt s pay fl)).2 = liveSecrets w) ∧
@@ -189,8 +165,8 @@ private def good : List Op :=
 
 example : validFrom (World.init (5 * nsPerSec)) good := (validFrom_iff _ _).2 (by decide +kernel)
 
-example : NoBounded good := by
-  intro op h; simp [good] at h; rcases h with rfl | rfl | rfl | rfl | rfl | rfl <;> simp [NoBoundedOp, pol]
+example : CapsPos good := by
+  intro op h; simp [good] at h; rcases h with rfl | rfl | rfl | rfl | rfl | rfl <;> simp [CapsPosOp, pol, kindOk]
 
 example : (runOps (World.init (5 * nsPerSec)) good).2.secrets.length = 4 ∧
     liveSecrets (runOps (World.init (5 * nsPerSec)) (good.take 4)).2 = 2 ∧
@@ -224,6 +200,33 @@ example :
     liveSecrets (applyOp w (.encrypt 0 7 [])).2 = 0 ∧ closedSecrets (applyOp w (.encrypt 0 7 [])).2 = 3 ∧
     liveSecrets (applyOp (applyOp w (.encrypt 0 7 [])).2 (.encrypt 0 8 [.ok, .ok, .ok, .ok, .ok, .err])).2 = 0 ∧
     closedSecrets (applyOp (applyOp w (.encrypt 0 7 [])).2 (.encrypt 0 8 [.ok, .ok, .ok, .ok, .ok, .err])).2 = 8 := by
+  decide +kernel
+
+
+/-! bounded caches: a factory with an LRU system-key cache and a shared TinyLFU intermediate-key
+cache, both of capacity 1; two partitions take turns, so every encrypt after the first evicts the
+other partition's intermediate key (released by the `onEvict` callback) and reloads its own. -/
+
+private def polB : Policy :=
+  { expireAfter := 1000 * nsPerSec, revokeInterval := 1000 * nsPerSec, precision := 0,
+    cacheSK := true, cacheIK := true, sharedIK := true, skKind := some (.lru, 1), ikKind := some (.tinylfu, 1) }
+
+private def histB : List Op :=
+  [.newFactory polB 0 0 0 0, .getSession 0 0 0 0, .getSession 0 1 0 0, .encrypt 0 7 [], .encrypt 1 8 [], .encrypt 0 9 []]
+
+example : validFrom (World.init (5 * nsPerSec)) histB := (validFrom_iff _ _).2 (by decide +kernel)
+
+example : CapsPos histB := by
+  intro op h; simp [histB] at h
+  rcases h with rfl | rfl | rfl | rfl | rfl | rfl <;> simp [CapsPosOp, polB, kindOk]
+
+/-- seven secrets so far (SK, 3 IK loads/creations, 3 DRKs), five released, two live = one entry in
+each of the two caches of capacity 1; after `closeAllOps` all seven are closed, none twice. -/
+example :
+    let w := (runOps (World.init (5 * nsPerSec)) histB).2
+    w.secrets.length = 7 ∧ liveSecrets w = 2 ∧ closedSecrets w = 5 ∧ openEntries w = 2 ∧
+    liveSecrets (runOps w (closeAllOps w)).2 = 0 ∧ closedSecrets (runOps w (closeAllOps w)).2 = 7 ∧
+    multiClosed (runOps w (closeAllOps w)).2 = 0 := by
   decide +kernel
 
 end AsherahVerif.Props.C09
